@@ -1,4 +1,4 @@
-"""Dependency of planner properties on the table-resolution contracts of C10 (resolve_database_table / resolve_table / get_predictor).
+"""Dependency of planner properties on the table-resolution contracts of C10 (resolve_database_table / resolve_table / get_predictor / catalog normalisation in __init__).
 
 Properties whose argument starts from "the table was resolved to integration X / the model was found in the catalog" re-evaluate the C10
 resolver and model-lookup obligations; an unlisted failure is reported under the dependent property too."""
@@ -10,6 +10,7 @@ def obligations(rep, tier, prop):
     sub = type(rep)('C10', tier, C10.LEVEL)
     C10.resolver_obligations(sub)
     C10.predictor_obligations(sub)
+    C10.init_obligations(sub)         # the catalog the resolvers look names up in: keys lower-cased whatever form it was supplied in
     n_ok = sum(1 for o in sub.obs if o.status == PROVED)
     bad = sub.unlisted_failures()
     und = [o for o in sub.obs if o.status == UNDECIDED and not getattr(o, 'soft', False)]
